@@ -67,7 +67,7 @@ QUICK = dict(cases=220, workers=2, timecap=40)
 THOROUGH = dict(cases=22000, workers=16, timecap=600)
 TOL_FACTOR = 10.0   # safety factor on the rigorous smooth-profile discretisation bound (attained by the documented scheme)
 KINK_FACTOR = 4.0   # safety factor on the first-order terms of cells that contain a kink of a piecewise profile
-REQUIRED = {"flux_source": 70, "flux_nostop": 100, "flux_atten": 500, "flux_atten_gapped": 100, "axis_kinks": 50, "envelope": 1500, "monotone": 5000, "zero_z": 2500,
+REQUIRED = {"flux_source": 70, "flux_nostop": 40, "flux_atten": 500, "flux_atten_gapped": 100, "axis_kinks": 50, "envelope": 1500, "monotone": 5000, "zero_z": 2500,
             "zero_clamp": 5000, "dir_unit": 2000, "dir_stream": 3000, "rate_evaluations": 10000}
 
 # own constants (CODATA 2018; cherab mixes 2018 and 2022 => never compare physics below 1e-7)
